@@ -148,7 +148,7 @@ def gen_chart(rng, game, keys=None, n=None, style=None, n_bpm=None, empty_p=0.12
 
 def gen_spec(rng, game=None, **kw):
     game = game or rng.choice(GAMES)
-    spec = dict(game=game, via=rng.choice(["items", "items", "from_dict", "df"]))
+    spec = dict(game=game, via=rng.choice(["items", "items", "from_dict", "df"]), int_values=rng.random() < 0.2)
     if game in MAPSET_GAMES:
         nch = 3 if game == "o2j" else rng.choice([1, 1, 2, 3])
         first = gen_chart(rng, game, **kw)
@@ -175,10 +175,15 @@ def gen_spec(rng, game=None, **kw):
 
 # ---------------------------------------------------------------------------
 
+INT_VALUES = False  # set by build(): whole numbers are given as Python ints, so the columns get integer dtypes
+
+
 def _mk_list(ListCls, ItemCls, rows, names, via):
     """rows: list of value lists in the order of `names`."""
     if not rows:
         return ListCls([])
+    if INT_VALUES:
+        rows = [[int(v) if isinstance(v, float) and v.is_integer() else v for v in r] for r in rows]
     if via == "from_dict":
         return ListCls.from_dict([dict(zip(names, r)) for r in rows])
     items = [ItemCls(**dict(zip(names, r))) for r in rows]
@@ -265,6 +270,15 @@ def build_chart(game, ch, via="items"):
 
 
 def build(spec):
+    global INT_VALUES
+    INT_VALUES = bool(spec.get("int_values"))
+    try:
+        return _build(spec)
+    finally:
+        INT_VALUES = False
+
+
+def _build(spec):
     game = spec["game"]
     via = spec.get("via", "items")
     maps = [build_chart(game, ch, via) for ch in spec["charts"]]
